@@ -30,6 +30,8 @@ open Ezpz
 #check @hasFDerivAt_rOf_regular                     -- the model's residual is Fréchet differentiable (15 kinds)
 #check @newtonStep_eq_gnMap                         -- one model round = the damped Gauss–Newton map
 #check @model_newtonRun_C02                         -- C02 for the rounds the model's loop executes
+#check @pointLineDistance_numerator_forms_agree     -- fix F21 does not change the meaning
+#check @circleTangentToCircle_row_or_flag           -- fix F22
 #check @GN.damped_defect_on_kernel                 -- why F15 happens
 
 /-! ### C03 — priorities -/
